@@ -408,6 +408,30 @@ def check_props(prop, tier, seed, cmd, quick, thorough, miri_quick=None, miri_th
                   floors=list(floors) + [("distinct_nontrivial", 20)])
 
 
+def check_cmd(prop, tier, seed, cmd, quick, thorough, level, rule, assumptions, floors=(), extra=(), profiles=("release",), secs=(90, 1500)):
+    t0 = time.time()
+    merged = Merge()
+    count = thorough if tier == "thorough" else quick
+    for p in profiles:
+        b = build(p)
+        res = run_shards(b, cmd, prop, p, seed, tier, NCPU, count, secs[1] if tier == "thorough" else secs[0], extra=extra)
+        merged.add(p, res)
+    return finish(prop, tier, seed, level, merged, t0, rule, assumptions, floors=list(floors))
+
+
+C05_RULE = ("cases = (program, input, width) from divergent idioms (empty loop on a non-zero cell, even step on an odd counter, wrap-dependent loops, printing loops, "
+            "input-dependent divergence, divergence nested in finite loops / behind ifs / after output), mutants and the corpus; a case is used only if the canonical "
+            "interpreter either halts or proves divergence by exact recurrence of (pc, pointer, tape, remaining input) with Brent's algorithm. One evaluation = one forked "
+            "execution of Executable::execute: for a provably diverging case the child is observed for a window of max(100 ms, 100 x canonical time) and then killed: returning "
+            "inside the window is a violation; the shared-memory event log at the end of the window must equal the canonical events (silent cycle: exactly; printing cycle: "
+            "common prefix equal and progress into the cycle); missing events are only a verdict after an isolated re-run with a 10x window. For halting cases every back end must return (5 s ceiling, 50 s alone) with the canonical log. "
+            "distinct_nontrivial counts distinct provably diverging (program, input, width) triples.")
+C17_RULE = ("cases = growth-heavy programs (first allocation, grow left, grow right, both, far moves, scans, input-driven growth, generated roaming) x 4 back ends x levels {0,2}; a clean run "
+            "counts the N allocations made during execute; then for k = 1..N (capped at 60 quick / 400 thorough) one forked run in which the k-th allocation returns null. Accepted endings: SIGABRT "
+            "(allocation-failure abort) or a caught panic, with the event log a prefix of the canonical one; a memory fault (handler installed for SIGSEGV/SIGBUS), any other signal or a normal return is a violation. "
+            "distinct_nontrivial counts distinct (program, width, back end, level, k) with the failing request actually reached.")
+
+
 def main():
     if len(sys.argv) < 2:
         print(__doc__)
@@ -432,6 +456,12 @@ def main():
         "C06": lambda: check_diff("C06", tier, seed, quick=(6000, 90), thorough=(120000, 900)),
         "C07": lambda: check_diff("C07", tier, seed, quick=(4000, 90), thorough=(80000, 900)),
         "C08": lambda: check_diff("C08", tier, seed, level="fault_enumeration", quick=(3000, 90), thorough=(60000, 900)),
+        "C05": lambda: check_cmd("C05", tier, seed, "c05", 700, 12000, "exploration", C05_RULE, DIFF_ASSUME + [
+            "non-termination is restated as: does not return within a window >= 100x the canonical time-to-cycle (a return inside the window is a definite violation; the converse is bounded)",
+            "roaming divergence (never repeats a state) is outside the quantifier"], floors=[("spec.cycle_proved", 40), ("cycle.silent", 5), ("cycle.printing", 5), ("distinct_nontrivial", 20)], secs=(100, 1500)),
+        "C17": lambda: check_cmd("C17", tier, seed, "c17", 24, 80, "fault_enumeration", C17_RULE, [
+            "the global allocator of the harness is the only allocator hpbf sees; null is returned for exactly one request per run",
+            "a SIGSEGV/SIGBUS handler turns memory faults into an attributable exit status"], floors=[("failed.zeroed_request (tape / context)", 50), ("distinct_nontrivial", 50)], secs=(300, 3000)),
         "C09": lambda: check_props("C09", tier, seed, "c09", 2000, 40000, miri_quick=(1, ["--ops", "120"]), miri_thorough=(12, ["--ops", "200"]), floors=[("growths_observed", 1000), ("requests_extending_both_sides", 10)]),
         "C14": lambda: check_props("C14", tier, seed, "c14", 200000, 5000000, miri_quick=(10, []), miri_thorough=(400, [])),
         "C15": lambda: check_props("C15", tier, seed, "c15", 8000, 600000, miri_quick=(2, []), miri_thorough=(80, [])),
